@@ -4,7 +4,9 @@
 own suite still passes with it. Writes /verif/seeded/<Cxx>-<x>/{patch.diff,demo.rs,meta.json}."""
 import sys, re, os, subprocess, json, shutil
 pid, x = sys.argv[1], sys.argv[2]
-wt = f"/tmp/wt/{pid}"; src = f"/tmp/wt/out/{pid}/{x}"
+base = sys.argv[sys.argv.index("--base") + 1] if "--base" in sys.argv else "/tmp/wt"
+name = sys.argv[sys.argv.index("--as") + 1] if "--as" in sys.argv else x
+wt = f"{base}/{pid}"; src = f"{base}/out/{pid}/{x}"
 def sh(c, cwd=wt, timeout=1800):
     r = subprocess.run(c, shell=True, cwd=cwd, capture_output=True, text=True, timeout=timeout)
     return r.returncode, (r.stdout + r.stderr)
@@ -12,7 +14,7 @@ demo = open(f"{src}/demo.rs").read()
 m = re.search(r'(tracing[\w-]*)/tests/([\w.-]+\.rs)?', demo)
 crate = m.group(1); fname = m.group(2) or f"{pid.lower()}_{x}_demo.rs"
 test = fname[:-3]
-res = {"property": pid, "variant": x, "crate": crate, "demo_test": test}
+res = {"property": pid, "variant": name, "base": subprocess.run("git log --format=%h -1", shell=True, cwd=wt, capture_output=True, text=True).stdout.strip(), "crate": crate, "demo_test": test}
 sh("git checkout -- . && git clean -fdq -e target -e Cargo.lock")
 dst = f"{wt}/{crate}/tests/{fname}"
 os.makedirs(os.path.dirname(dst), exist_ok=True); shutil.copy(f"{src}/demo.rs", dst)
@@ -35,7 +37,7 @@ res["confirmed"] = bool(rc0 == 0 and res["patch_applies"] and rc1 != 0 and rcb =
 res["commands"] = [cmd + "   (in a pristine scratch worktree: passes; with patch.diff applied: fails)", "tools/baseline.sh <worktree>   (with patch.diff applied, demo removed)"]
 notes = open(f"{src}/NOTES.md").read() if os.path.exists(f"{src}/NOTES.md") else ""
 res["needs_to_manifest"] = notes[:1500]
-out = f"/verif/seeded/{pid}-{x}"
+out = f"/verif/seeded/{pid}-{name}"
 os.makedirs(out, exist_ok=True)
 shutil.copy(f"{src}/patch.diff", f"{out}/patch.diff")
 shutil.copy(f"{src}/demo.rs", f"{out}/demo.rs")
@@ -43,4 +45,4 @@ hk = f"/verif/seeded/tmp/{pid}/{x}/patch.hooked.diff"
 if os.path.exists(hk) and open(hk).read() != open(f"{src}/patch.diff").read():
     shutil.copy(hk, f"{out}/patch.hooked.diff")
 json.dump(res, open(f"{out}/meta.json", "w"), indent=1)
-print(pid, x, "CONFIRMED" if res["confirmed"] else "NOT CONFIRMED", {k: res[k] for k in ("demo_without_change", "demo_with_change", "suite_ok", "patch_applies")})
+print(pid, name, "CONFIRMED" if res["confirmed"] else "NOT CONFIRMED", {k: res[k] for k in ("demo_without_change", "demo_with_change", "suite_ok", "patch_applies")})
